@@ -120,8 +120,8 @@ func (br *botRunner) UpdateTableState(table *pokertable.Table) error {
 		br.lastGameStateTime = gs.UpdatedAt
 	}
 
-	// game move is allowed when the game is playing
-	if table.State.Status != pokertable.TableStateStatus_TableGamePlaying {
+	// game move is allowed when the game is playing (the first game state may not have arrived yet)
+	if table.State.Status != pokertable.TableStateStatus_TableGamePlaying || gs == nil {
 		return nil
 	}
 
